@@ -166,18 +166,131 @@ pub fn check(c: &Case, st: &mut Stats) -> Check {
     }
 }
 
+// ---------------------------------------------------------------------------------------
+// STUN over a TCP flow: once the flow's leading bytes were identified as STUN (RFC 5389 request
+// with magic cookie), every later segment is handed to the STUN responder, without a signature
+// in front of it. "Other classes and methods get no STUN response" must hold there too.
+
+#[derive(Clone, Debug, Serialize, Deserialize, PartialEq)]
+pub struct TcpCase {
+    pub scn: Scenario,
+    pub sport: u16,
+    pub dport: u16,
+    /// first segment: a magic-cookie binding request with > 255 attribute bytes (complete, or
+    /// cut short after `first_keep` bytes so that it is identified but not answered)
+    pub first: StunReq,
+    pub first_keep: Option<u16>,
+    /// later segments: (message, message type to overwrite it with)
+    pub later: Vec<(StunReq, Option<u16>)>,
+}
+
+pub fn tcp_case_strategy() -> impl Strategy<Value = TcpCase> {
+    let other_type = prop_oneof![
+        2 => prop::sample::select(vec![0x0011u16, 0x0101, 0x0111, 0x0002, 0x0003, 0x0004, 0x0006, 0x0008, 0x0009, 0x000b, 0x0021, 0x0201, 0x0fff]),
+        // methods whose high bits (first byte of the message) are set while the low byte reads 0x01
+        2 => (1u16..64).prop_map(|h| ((h << 8) | 0x01) & 0x3fff).prop_map(|t| if t & 0x3fff == 1 { 0x0201 } else { t }),
+        1 => any::<u16>().prop_map(|t| if t & 0x3fff == 1 { 2 } else { t & 0x3fff }),
+    ];
+    (scenario_quiet(Fam::Any), port(), port(), stun_req_magic_big(), prop::option::weighted(0.5, 20u16..200), vec((stun_req(), prop::option::weighted(0.6, other_type)), 1..=3))
+        .prop_map(|(scn, sport, dport, first, first_keep, later)| TcpCase { scn, sport, dport, first, first_keep, later })
+}
+
+pub fn tcp_check(c: &TcpCase, st: &mut Stats) -> Check {
+    use crate::vf::session::*;
+    Sut::reset();
+    st.eval();
+    let sut = Sut::new(&c.scn.cfg);
+    let net = &c.scn.net;
+    let mut first = c.first.bytes();
+    if let Some(k) = c.first_keep {
+        first.truncate((k as usize).max(20));
+    }
+    match super::c10::divergence(&first, false) {
+        super::c10::Divergence::Known(k) => {
+            st.exclude(k);
+            return Ok(());
+        }
+        super::c10::Divergence::Unlisted(m) => vfail!("{}: {}", hex(&first[..first.len().min(60)]), m),
+        super::c10::Divergence::None => {}
+    }
+    let mut stream = first.clone();
+    let mut lens = vec![first.len()];
+    let mut segs: Vec<(Vec<u8>, [u8; 16], bool, usize)> = Vec::new();
+    for (m, t) in &c.later {
+        let mut b = m.bytes();
+        if let Some(t) = t {
+            b[0] = (*t >> 8) as u8;
+            b[1] = *t as u8;
+        }
+        lens.push(b.len());
+        stream.extend_from_slice(&b);
+        segs.push((b, m.tid(), t.is_none(), m.change_port_count()));
+    }
+    let flow = Flow { net: net.clone(), sport: c.sport, dport: c.dport };
+    st.frames(1 + lens.len() as u64);
+    let cookie = learn_cookie(&sut, &flow, 77).map_err(Failure::new)?;
+    let mut seq = 78u32;
+    let mut off = 0usize;
+    for (i, l) in lens.iter().enumerate() {
+        let seg = &stream[off..off + l];
+        off += l;
+        let out = sut.frame(&flow.data(seq, cookie.wrapping_add(1), seg));
+        seq = seq.wrapping_add(*l as u32);
+        if let Out::Panic(p) = &out {
+            return Err(Failure::keyed(p.key(), format!("panic: {} {}", p.file, p.msg)));
+        }
+        let (rsport, a): (u16, Vec<u8>) = match &out {
+            Out::Reply(r) => {
+                let d = decode_reply(r).map_err(Failure::new)?;
+                match d.tcp() {
+                    Some(t) if !t.payload.is_empty() => (t.sport, t.payload.clone()),
+                    _ => continue,
+                }
+            }
+            _ => continue,
+        };
+        if classify_reply(&a, true) != Responder::Stun {
+            continue;
+        }
+        if i == 0 {
+            st.class("tcp:first-segment-answered");
+            response_ok(&a, &c.first.tid(), net, c.sport)?;
+            continue;
+        }
+        let (b, tid, is_request, cp) = &segs[i - 1];
+        st.nontrivial_hash(fnv(b) ^ 0x7c9);
+        if !*is_request {
+            vfail!("segment #{} of a STUN flow over TCP has message type {:#06x} (not a Binding Request) but got a STUN response: {} -> {}", i, be16(b, 0), hex(&b[..b.len().min(60)]), hex(&a[..a.len().min(60)]));
+        }
+        st.class("tcp:later-binding-request-answered");
+        response_ok(&a, tid, net, c.sport)?;
+        let want = if *cp > 0 { c.dport.wrapping_add(1) } else { c.dport };
+        vensure!(rsport == want, "response over TCP sent from port {} (request to port {}, change-port count {})", rsport, c.dport, cp);
+    }
+    for (_, _, is_request, _) in &segs {
+        st.class(if *is_request { "tcp:later-segment:binding-request" } else { "tcp:later-segment:other-class-or-method" });
+    }
+    Ok(())
+}
+
 impl Prop for C15 {
     fn id(&self) -> &'static str {
         "C15"
     }
     fn rule(&self) -> &'static str {
-        "cases = STUN messages over UDP, both IP versions, source/destination ports incl. 65535: Binding Requests with the RFC 5389 magic cookie and 0..6 well-formed TLVs (CHANGE-REQUEST at most once, USERNAME/SOFTWARE/PRIORITY/unknown types, value lengths 0..64 multiples of 4, plus a variant with > 255 attribute bytes so that the attribute walk is exercised outside the matcher's known shadowing divergence), RFC 3489 requests without cookie in the two published forms, RFC 5389 requests whose attribute values are padded (lengths not multiples of 4); negatives: indication / success / error class and other methods; malformed TLV lists (only: no crash, any STUN reply satisfies the invariants). Oracle: independent STUN decoder: type 0x0101, length field = attribute bytes, 128-bit transaction id echoed, exactly one MAPPED-ADDRESS with family/port/address = IP version/source port/source address, response source port = dport (+1 mod 2^16 with change-port). Requests inside a listed matcher divergence (C10) are excluded and counted. Non-trivial = well-formed requests and answered hostile ones; distinct by message hash and by (attribute-list shape, cookie mode, IP version)."
+        "cases = STUN messages over UDP, both IP versions, source/destination ports incl. 65535: Binding Requests with the RFC 5389 magic cookie and 0..6 well-formed TLVs (CHANGE-REQUEST at most once, USERNAME/SOFTWARE/PRIORITY/unknown types, value lengths 0..64 multiples of 4, plus a variant with > 255 attribute bytes so that the attribute walk is exercised outside the matcher's known shadowing divergence), RFC 3489 requests without cookie in the two published forms, RFC 5389 requests whose attribute values are padded (lengths not multiples of 4); negatives: indication / success / error class and other methods; malformed TLV lists (only: no crash, any STUN reply satisfies the invariants). Over TCP: a flow whose first segment is a magic-cookie request of > 255 attribute bytes (complete, or cut short so that the flow is identified but nothing is answered yet) followed by 1..3 segments holding STUN messages whose type is a Binding Request or any other class / method (incl. methods whose high bits live in the first byte while the second byte reads 0x01): only Binding Requests may get a STUN response, and that response satisfies the same invariants. Oracle: independent STUN decoder: type 0x0101, length field = attribute bytes, 128-bit transaction id echoed, exactly one MAPPED-ADDRESS with family/port/address = IP version/source port/source address, response source port = dport (+1 mod 2^16 with change-port). Requests inside a listed matcher divergence (C10) are excluded and counted. Non-trivial = well-formed requests and answered hostile ones; distinct by message hash and by (attribute-list shape, cookie mode, IP version)."
     }
     fn run(&self, ctx: &mut RunCtx) {
         let n = ctx.share(ctx.tier.n(800_000, 10_000_000));
         ctx.run_generated("stun", n, case_strategy(), check);
+        let m = ctx.share(ctx.tier.n(200_000, 3_000_000));
+        ctx.run_generated("stun-tcp", m, tcp_case_strategy(), tcp_check);
     }
-    fn replay(&self, _stream: &str, case: &Value, st: &mut Stats) -> Check {
-        check(&serde_json::from_value(case.clone()).map_err(|e| Failure::new(format!("bad case: {}", e)))?, st)
+    fn replay(&self, stream: &str, case: &Value, st: &mut Stats) -> Check {
+        let bad = |e: serde_json::Error| Failure::new(format!("bad case: {}", e));
+        match stream {
+            "stun-tcp" => tcp_check(&serde_json::from_value(case.clone()).map_err(bad)?, st),
+            _ => check(&serde_json::from_value(case.clone()).map_err(bad)?, st),
+        }
     }
 }
